@@ -4,10 +4,14 @@ package main
 // the real L1InfoTreeSync facade; references: the GER contract's deposit-tree algorithm and a sparse rollup exit tree.
 
 import (
-	"database/sql"
 	"context"
+	"database/sql"
 	"errors"
 	"fmt"
+	"github.com/0xPolygon/cdk-contracts-tooling/contracts/fep/etrog/polygonrollupmanager"
+	"github.com/0xPolygon/cdk-contracts-tooling/contracts/pp/l2-sovereign-chain/polygonzkevmglobalexitrootv2"
+	"github.com/ethereum/go-ethereum/accounts/abi"
+	"github.com/ethereum/go-ethereum/core/types"
 	"math/big"
 	"os"
 	"path/filepath"
@@ -304,8 +308,14 @@ func (w *liWorld) exec(r *Run, line string) string {
 	case "blk":
 		bn := bigOf(ws[1]).Uint64()
 		blk := sync.Block{Num: bn, Hash: common.BigToHash(new(big.Int).SetUint64(bn*104729 + 7))}
-		for _, tok := range ws[2:] {
-			blk.Events = append(blk.Events, liParseEv(tok))
+		if evs, ok := liEventsViaLogs(ws[2:]); ok {
+			// the block's events as the syncer gets them: ABI-encoded logs through the downloader's own log handlers
+			blk.Events = evs
+			r.Count("branch:events-decoded-from-logs")
+		} else {
+			for _, tok := range ws[2:] {
+				blk.Events = append(blk.Events, liParseEv(tok))
+			}
 		}
 		obs = liErr(w.p.ProcessBlock(ctx, blk))
 		if obs == "ok" {
@@ -373,17 +383,17 @@ func (w *liWorld) exec(r *Run, line string) string {
 // ---- references computed from the surviving blocks ----
 
 type liRef struct {
-	leaves   []liRefLeaf          // in chain order
-	roots    []common.Hash        // contract root after each leaf
-	rollup   map[uint32]common.Hash // last non-zero exit root per rollup index (rollupID-1)
-	manager  map[uint32]common.Hash // what the rollup manager stores (zero included)
-	updRoots []liRefUpd
-	maxBlock uint64
+	leaves           []liRefLeaf            // in chain order
+	roots            []common.Hash          // contract root after each leaf
+	rollup           map[uint32]common.Hash // last non-zero exit root per rollup index (rollupID-1)
+	manager          map[uint32]common.Hash // what the rollup manager stores (zero included)
+	updRoots         []liRefUpd
+	maxBlock         uint64
 	zeroAfterNonZero bool
 }
 type liRefLeaf struct {
 	ger, rer, mer, ph, hash common.Hash
-	ts, bn, pos           uint64
+	ts, bn, pos             uint64
 }
 type liRefUpd struct {
 	root   common.Hash
@@ -611,3 +621,86 @@ func liReplay(r *Run, lines []string) {
 }
 
 var _ = db.ErrNotFound
+
+// ---- the same events as ABI-encoded logs, decoded by the real log handlers (l1infotreesync/downloader.go) ----
+
+var liAppender sync.LogAppenderMap
+
+func liMkLog(a *abi.ABI, name string, index uint, args ...interface{}) types.Log {
+	ev, ok := a.Events[name]
+	if !ok {
+		panic("no event " + name)
+	}
+	topics := []common.Hash{ev.ID}
+	var plain []interface{}
+	var plainArgs abi.Arguments
+	for i, in := range ev.Inputs {
+		if in.Indexed {
+			t, err := abi.MakeTopics([]interface{}{args[i]})
+			must(err)
+			topics = append(topics, t[0][0])
+		} else {
+			plain = append(plain, args[i])
+			plainArgs = append(plainArgs, in)
+		}
+	}
+	data, err := plainArgs.Pack(plain...)
+	must(err)
+	// the transaction index is deliberately NOT the log index: several logs of one transaction, later transactions first, …
+	return types.Log{Topics: topics, Data: data, Index: index, TxIndex: index / 3}
+}
+
+// possible only when every info update of the block names the same parent hash and timestamp (they are the block's)
+func liEventsViaLogs(toks []string) ([]interface{}, bool) {
+	var ph common.Hash
+	var ts uint64
+	seen := false
+	for _, tok := range toks {
+		f := strings.Split(tok, ";")
+		if f[0] == "i" {
+			p, t := common.BytesToHash(unhx(f[4])), bigOf(f[5]).Uint64()
+			if seen && (p != ph || t != ts) {
+				return nil, false
+			}
+			ph, ts, seen = p, t, true
+		}
+	}
+	if liAppender == nil {
+		var err error
+		liAppender, err = l1infotreesync.VerifBuildAppender()
+		must(err)
+	}
+	gerABI, err := polygonzkevmglobalexitrootv2.Polygonzkevmglobalexitrootv2MetaData.GetAbi()
+	must(err)
+	rmABI, err := polygonrollupmanager.PolygonrollupmanagerMetaData.GetAbi()
+	must(err)
+	b := &sync.EVMBlock{EVMBlockHeader: sync.EVMBlockHeader{ParentHash: ph, Timestamp: ts}}
+	u := func(s string) uint64 { return bigOf(s).Uint64() }
+	h := func(s string) [32]byte { return common.BytesToHash(unhx(s)) }
+	for k, tok := range toks {
+		f := strings.Split(tok, ";")
+		var l types.Log
+		switch f[0] {
+		case "i":
+			l = liMkLog(gerABI, "UpdateL1InfoTree", uint(u(f[1])), h(f[2]), h(f[3]))
+		case "v":
+			l = liMkLog(gerABI, "UpdateL1InfoTreeV2", uint(1000+k), h(f[1]), uint32(u(f[2])), big.NewInt(int64(k)+77), uint64(k))
+		case "vb":
+			name := "VerifyBatches"
+			if u(f[3])%2 == 1 {
+				name = "VerifyBatchesTrustedAggregator"
+			}
+			l = liMkLog(rmABI, name, uint(u(f[1])), uint32(u(f[2])), u(f[3]), h(f[4]), h(f[5]), common.BytesToAddress(unhx(f[6])))
+		case "in":
+			l = liMkLog(gerABI, "InitL1InfoRootMap", uint(2000+k), uint32(u(f[1])), h(f[2]))
+		default:
+			panic("bad token " + tok)
+		}
+		fn, ok := liAppender[l.Topics[0]]
+		if !ok {
+			panic("no log handler for " + f[0])
+		}
+		must(fn(b, l))
+	}
+	return b.Events, true
+}
